@@ -103,7 +103,7 @@ def parseOp (s : State) (j : Json) : Option Op :=
   | _ => none
 
 def touchJ : Touch → String
-  | .none => "none" | .self => "self" | .parent => "parent" | .linked => "linked"
+  | .none => "none" | .self => "self" | .parent => "parent" | .linked => "linked" | .always => "always"
 def mkindJ : MKind → String
   | .setter => "setter" | .method => "method" | .forceCreated => "forceCreated"
   | .forceUpdated => "forceUpdated"
